@@ -423,7 +423,7 @@ theorem algo_decode_canonical (hlen : wl.length = 2048) (hH : ∀ x, (H x).lengt
   · rw [if_pos hcount] at h; cases h
   rw [if_neg hcount, pickLang_some, ok_bind, bind_eq_ok_iff] at h
   obtain ⟨idxs, hidxs, h⟩ := h
-  obtain ⟨hlt, hws⟩ := mapM_wordIdx_ok wl ws idxs hidxs
+  obtain ⟨hlt, hws⟩ := mapM_wordIdx_ok_mn wl ws idxs hidxs
   have hl : idxs.length = 25 := by rw [mapM_wordIdx_length hidxs]; omega
   have hlt' : ∀ i ∈ idxs, i < 2048 := fun i hi => by have := hlt i hi; omega
   rw [algoTail_eq H idxs hl hlt'] at h
@@ -470,7 +470,7 @@ theorem algo_decode_eq (hlen : wl.length = 2048) (ws : List Nat) :
   cases hidxs : ws.mapM (wordIdx wl) with
   | error e => rfl
   | ok idxs =>
-    obtain ⟨hlt, _⟩ := mapM_wordIdx_ok wl ws idxs hidxs
+    obtain ⟨hlt, _⟩ := mapM_wordIdx_ok_mn wl ws idxs hidxs
     have hl : idxs.length = 25 := by rw [mapM_wordIdx_length hidxs]; omega
     rw [ok_bind, ok_bind, algoTail_eq H idxs hl (fun i hi => by have := hlt i hi; omega),
       valLE_eq_ofDigits]
@@ -495,8 +495,8 @@ theorem algo_decode_errors (hH : ∀ x, (H x).length = 32) (lang : Option (List 
     | none => exact hlangs l (pickLang_mem hl)
   rw [bind_eq_error_iff] at h
   rcases h with h | ⟨idxs, hidxs, h⟩
-  · exact Or.inl (mapM_wordIdx_error l ws e h).1
-  obtain ⟨hlt, _⟩ := mapM_wordIdx_ok l ws idxs hidxs
+  · exact Or.inl (mapM_wordIdx_error_mn l ws e h).1
+  obtain ⟨hlt, _⟩ := mapM_wordIdx_ok_mn l ws idxs hidxs
   exact algoTail_error hH2 (by rw [mapM_wordIdx_length hidxs]; omega)
     (fun i hi => by have := hlt i hi; omega) h
 
@@ -614,7 +614,7 @@ theorem v2_decode_errors (lang : Option (List Nat)) (ws : List Nat) (e : Err)
   · exact pickLang_error h
   rw [bind_eq_error_iff] at h
   rcases h with h | ⟨idxs, _, h⟩
-  · exact (mapM_wordIdx_error l ws e h).1
+  · exact (mapM_wordIdx_error_mn l ws e h).1
   · cases h
 
 /-- language auto-detection -/
@@ -650,7 +650,7 @@ theorem v2_decode_ok_iff (ws : List Nat) (e : Bytes) :
   · rintro ⟨hmem, rfl⟩
     cases hidxs : ws.mapM (wordIdx wl) with
     | error err =>
-      obtain ⟨_, w, hw, hnot⟩ := mapM_wordIdx_error wl ws err hidxs
+      obtain ⟨_, w, hw, hnot⟩ := mapM_wordIdx_error_mn wl ws err hidxs
       exact absurd (hmem w hw) hnot
     | ok idxs => rw [mapM_wordIdx_eq_map_idxOf hidxs]; rfl
 
@@ -665,7 +665,7 @@ theorem v2_decode_canonical_of_bits (hlen : wl.length = 2048) (ws : List Nat) (e
   rw [v2Decode_eq, pickLang_some, ok_bind, bind_eq_ok_iff] at h
   obtain ⟨idxs, hidxs, h⟩ := h
   cases h
-  obtain ⟨hlt, hws⟩ := mapM_wordIdx_ok wl ws idxs hidxs
+  obtain ⟨hlt, hws⟩ := mapM_wordIdx_ok_mn wl ws idxs hidxs
   have hl0 : idxs.getLast? ≠ some 0 := by
     rw [mapM_wordIdx_getLast hidxs]
     intro hc
@@ -714,13 +714,13 @@ theorem v2_last_zero_value_lt (hlen : wl.length = 2048) (ws : List Nat) (e : Byt
   rw [v2Decode_eq, pickLang_some, ok_bind, bind_eq_ok_iff] at h
   obtain ⟨idxs, hidxs, h⟩ := h
   cases h
-  obtain ⟨hlt, _⟩ := mapM_wordIdx_ok wl ws idxs hidxs
+  obtain ⟨hlt, _⟩ := mapM_wordIdx_ok_mn wl ws idxs hidxs
   have hl := mapM_wordIdx_length hidxs
   have hlast : idxs.getLast? = some 0 := by rw [mapM_wordIdx_getLast hidxs, hw]; simp [hz]
   have hsplit : idxs.dropLast ++ [0] = idxs := List.dropLast_append_getLast? 0 (by simp [hlast])
   rw [toNatBE_toBytesAuto, ← hsplit, List.reverse_append, List.reverse_singleton,
     List.singleton_append, ofDigitsBE_cons_zero, hlen, ← hl]
-  have := ofDigitsBE_lt 2048 (by omega) idxs.dropLast.reverse (by
+  have := ofDigitsBE_lt_mn 2048 (by omega) idxs.dropLast.reverse (by
     intro d hd
     have := hlt d (List.mem_of_mem_dropLast (List.mem_reverse.mp hd)); omega)
   simpa using this
